@@ -99,6 +99,14 @@ CHECKS["C05"] = (
     "DESIGN.md section 2 / C05",
 )
 
+CHECKS["C08"] = (
+    "proptest-generated C type graphs x subsets of the 10 derive/impl options x per-type exclusions; reference model = direct recursive specification of derivability over the generator's model, observed through rustc trait probes; executed behaviour checks of default()/eq()/fmt()",
+    "exploration",
+    "For every top-level struct/union and each of Copy(+Clone), Debug, Default, Hash, PartialEq, PartialOrd, Eq, Ord, a specification written from the documented rules (floats: no Hash/Eq/Ord; pointers and enums: no Default; arrays over 32: Default only by hand; zero-length/flexible arrays: no Copy/Hash/PartialEq; function pointers over 12 parameters; Rust unions: Copy only; packed types need Copy; option gating; per-type exclusions propagating to containers; hand-written Default/Debug impls) says whether the trait must be present. Presence is read off a compiled probe that reports `T: Trait` at run time through autoref specialisation, so both directions are checked: no trait where a member cannot support it (such a derive would not even compile) and none withheld. default() must leave every scalar member zero, fmt() must not panic on a zeroed object, == must hold for zeroed objects and fail after a one-bit change in any scalar member.",
+    "latest Rust target; C only (destructors/vtables are C++); types under #pragma pack that are not Copy are not compared; padding bytes cannot be observed after a move, so the all-zero check covers scalar members; cases whose plain bindings fall in C01's known classes are not compared (when Copy is disabled the generator removes packing instead, counted).",
+    "DESIGN.md section 2 / C08",
+)
+
 CHECKS["C09"] = (
     "proptest-generated C declaration graphs with a known reference relation x generated root patterns (seven regular-expression forms, five allowlist kinds, blocklists, --no-recursive-allowlist); reference model (regex crate + generator's closure) for roots and minimality, token identity against the full bindings, differential rustc validity of the allowlisted module",
     "exploration",
